@@ -73,8 +73,18 @@ package node
 //@ spec func convertible(xs []fat2.Transaction, i int, h int, rates gomap[fat2.PTicker]uint64, avgs gomap[fat2.PTicker]uint64) bool =
 //@     !isConv(xs[i]) || convOK(h, wrap_int64(xs[i].Input.Amount), rates[xs[i].Input.Type], avgs[xs[i].Input.Type], rates[xs[i].Conversion], avgs[xs[i].Conversion])
 //@
+//@ // which reject code: that of the first transaction, in batch order, that breaks a rule (1 funds, 2 zero rate, 3 pFCT one-way,
+//@ // 4 small-asset one-way) -- a function of the batch, the rates, the height and the ledger, not of any iteration order (C01)
+//@ spec func offence(xs []fat2.Transaction, i int, h int, rates gomap[fat2.PTicker]uint64, bal map[factom.FAAddress]map[int]int) int =
+//@     xs[i].Input.Amount > bal[xs[i].Input.Address][xs[i].Input.Type] ? 1
+//@     : (!isConv(xs[i]) ? 0
+//@     : ((rates[xs[i].Input.Type] == 0 || rates[xs[i].Conversion] == 0) ? 2
+//@     : ((h >= config.OneWaypFCTConversions && xs[i].Conversion == fat2.PTickerFCT) ? 3
+//@     : ((h >= config.OneWaySmallAssetsConversions && smallAsset(xs[i].Conversion)) ? 4 : 0))))
+//@ spec func rejectCodeOf(e error) int = e == pegnet.InsufficientBalanceErr ? 1 : (e == pegnet.ZeroRatesError ? 2 : (e == pegnet.PFCTOneWayError ? 3 : (e == pegnet.PSMALLOneWayError ? 4 : 0)))
+//@
 //@ func (*Pegnetd).applyTransactionBatch
-//@   props C03 C13 C17 C06 C08
+//@   props C03 C13 C17 C06 C08 C01
 //@   requires @hash txBatch.Entry.Hash != nil && d.Pegnet != nil
 //@   requires @not_replayed !Lrel[*txBatch.Entry.Hash]
 //@   requires @nonneg balNonNeg(Lbal)
@@ -99,8 +109,10 @@ package node
 //@   ensures @nil_means_applied{C17} result == nil ==> Lrel[H]
 //@   // liveness as safety (C08): with a healthy database the admission phase can only end in nil or one of the reject codes the callers tolerate
 //@   ensures @admission_fails_only_with_reject_codes{C08} envHealthy && calls("recordBatch") == old(calls("recordBatch")) ==> result == nil || isRejectErr(result)
+//@   ensures @conversion_rule_code_is_that_of_the_first_offending_transaction{C01,C13} isRejectErr(result) && result != pegnet.InsufficientBalanceErr ==> (exists k int :: 0 <= k && k < len(txs) && old(offence(txs, k, currentHeight, rates, Lbal)) == rejectCodeOf(result) && (forall j int :: 0 <= j && j < k ==> old(offence(txs, j, currentHeight, rates, Lbal)) == 0))
 //@   ensures @nil_unapplied_only_if_unconvertible result == nil && !Lrel[H] ==> (exists k int :: 0 <= k && k < len(txs) && !old(convertible(txs, k, currentHeight, rates, averages)))
 //@   loop 1 invariant @range 0 <= iter && iter <= len(txs)
+//@   loop 1 invariant @no_offence_so_far forall k int :: 0 <= k && k < iter ==> old(offence(txs, k, currentHeight, rates, Lbal)) == 0
 //@   loop 1 invariant @admissible forall k int :: 0 <= k && k < iter ==> old(admissible(txs, k, currentHeight, rates)) && old(convertible(txs, k, currentHeight, rates, averages))
 //@   loop 1 invariant @inner_maps balances != nil && fresh(balances) && (forall a factom.FAAddress :: dom(balances)[a] ==> vals(balances)[a] != nil && fresh(vals(balances)[a]))
 //@   loop 1 invariant @inputs_present forall k int :: 0 <= k && k < iter ==> dom(balances)[old(txs[k].Input.Address)]
@@ -108,6 +120,8 @@ package node
 //@   loop 2 preserves old
 //@   loop 3 preserves old
 //@   loop 2 invariant @range 0 <= iter && iter <= len(txs)
+//@   loop 2 invariant @no_offence forall k int :: 0 <= k && k < len(txs) ==> old(offence(txs, k, currentHeight, rates, Lbal)) == 0
+//@   loop 3 invariant @no_offence forall k int :: 0 <= k && k < len(txs) ==> old(offence(txs, k, currentHeight, rates, Lbal)) == 0
 //@   loop 2 invariant @inner_maps balances != nil && fresh(balances) && (forall a factom.FAAddress :: dom(balances)[a] ==> vals(balances)[a] != nil && fresh(vals(balances)[a]))
 //@   loop 2 invariant @inputs_present forall k int :: 0 <= k && k < len(txs) ==> dom(balances)[old(txs[k].Input.Address)]
 //@   loop 3 invariant @inner_maps balances != nil && fresh(balances) && (forall a factom.FAAddress :: dom(balances)[a] ==> vals(balances)[a] != nil && fresh(vals(balances)[a]))
@@ -435,7 +449,7 @@ package node
 //@ spec func stakeUpTo(bs []uint64, n int, rates gomap[fat2.PTicker]uint64, h int) int = n <= 1 ? 0 : stakeUpTo(bs, n - 1, rates, h) + stakeOf(bs, n - 1, rates, h)
 //@
 //@ func (*Pegnetd).SnapshotPayouts
-//@   props C14 C04 C08
+//@   props C14 C04 C08 C01
 //@   nullable fLog
 //@   requires @wellformed d.Pegnet != nil
 //@   requires @cadence height >= config.V20HeightActivation && height % 144 == 0 && rates != nil
@@ -465,6 +479,18 @@ package node
 //@   loop 5 invariant @peg_only (forall a factom.FAAddress, t int :: t != fat2.PTickerPEG ==> Lbal[a][t] == old(Lbal)[a][t]) && (forall a factom.FAAddress :: Lbal[a][fat2.PTickerPEG] >= old(Lbal)[a][fat2.PTickerPEG]) && balNonNeg(Lbal)
 //@   loop 5 invariant @total_bounded msum(vals(ranged), dom(ranged)) <= 450000000000 * 144
 //@   loop 5 preserves old
+//@
+//@ // determinism of the payout records and of the dust recipient (C01): the slice built from the stake map (in map iteration
+//@ // order) is sorted with an unstable sort; the result is a function of the map only if the sort key is a total order on the
+//@ // elements.  The comparator orders by stake alone ...
+//@ func (*Pegnetd).SnapshotPayouts$1
+//@   props C01 C14
+//@   requires @in_range 0 <= i && i < len(list) && 0 <= j && j < len(list)
+//@   modifies nothing
+//@   ensures @orders_by_stake result <==> list[i].PUSD < list[j].PUSD
+//@ // ... so two holders with equal stake are ordered by whatever order the map iteration produced (F3)
+//@ site-requires (*Pegnetd).SnapshotPayouts | sort.Slice | 1
+//@   requires @sort_key_is_a_total_order{C01} forall a int, b int :: 0 <= a && a < b && b < len(list) ==> list[a].PUSD != list[b].PUSD
 //@
 //@ // valuation of a holder's stake: every non-PEG, non-zero balance (with usable rates from 2.0.2 on) is converted to pUSD at
 //@ // the block's spot rates, and nothing else is added (C14)
